@@ -33,7 +33,10 @@ def start_models():
     _starts["pheno"] = pheno
     # a multiple-dose oral-like data set: second dose inside the observation window
     _starts["pheno_oral"] = set_first_order_absorption(pheno)
-    from pharmpy.modeling import remove_covariate_effect
+    from pharmpy.modeling import add_bioavailability, add_lag_time, add_peripheral_compartment, remove_covariate_effect
+
+    # first-order absorption with lag time, bioavailability and one peripheral compartment
+    _starts["pheno_rich"] = add_peripheral_compartment(add_bioavailability(add_lag_time(_starts["pheno_oral"])))
 
     nocov = remove_covariate_effect(remove_covariate_effect(remove_covariate_effect(pheno, "CL", "WGT"), "VC", "WGT"), "VC", "APGR")
     _starts["pheno_nocov"] = nocov
